@@ -130,6 +130,13 @@ class World(object):
         pc = ProxyConfiguration(app_conf(workdir), conf_base_dir=workdir, seed=False, renderd=False)
         self.app = MapProxyApp(pc.configured_services(), pc.base_config)
         self.leak_needles = self._leak_needles()
+        # fill the tile caches: whether a tile is already cached is not part of the request classes
+        for path in ('/tms/1.0.0/cached/EPSG900913/1/1/0.png', '/tiles/cached/EPSG900913/1/1/0.png',
+                     '/kml/cached/EPSG900913/1/1/0.png', '/wmts/cached/GLOBAL_MERCATOR/1/1/0.png',
+                     '/wmts/cached/GLOBAL_MERCATOR/1/0/1.png', '/tms/1.0.0/cached/EPSG900913/1/0/1.png'):
+            self.call(path, [], {})
+        self.call('/service', 'SERVICE=WMTS&REQUEST=GetTile&VERSION=1.0.0&LAYER=cached&STYLE=default&TILEMATRIXSET=GLOBAL_MERCATOR'
+                              '&TILEMATRIX=1&TILEROW=0&TILECOL=1&FORMAT=image/png', {})
 
     def close(self):
         self._H.HTTPClient.open = self._orig_open
@@ -337,7 +344,7 @@ def observe(world, raw, needles):
         except UnicodeDecodeError:
             o['problems'].append('body of %s is not utf-8' % base)
             text = body.decode('utf-8', 'replace')
-    if o['status'] in (204, 304) or (not body and base == 'none'):
+    if o['status'] in (204, 304) or (not body and not base.startswith('image/')):
         o['kind'] = 'empty'
         if body:
             o['problems'].append('status %d with a body' % o['status'])
